@@ -445,6 +445,19 @@ def check_forwarding(ck, F, tr, imp, iname, m):
                 continue        # on_id_change is by design sent only when the inner collector returned a different id
             if b is top and not top.postdominates(bb, 0):
                 problems.append("`%s` is forwarded to %s only on some paths" % (t["callee"]["method"], receiver_key(b, t)))
+    # Layered::try_close turns "the inner collector says this was the last reference" into the layer's on_close: that
+    # verdict is the *only* thing on_close may depend on (not unwinding, not the close guard being available, ...)
+    if tr == COLLECT and hd.endswith("::Layered") and name == "try_close":
+        from rulekit.query import guards_of
+        for b, bb, t in fwd:
+            if t["callee"]["trait"] != SUBSCRIBE or b is not top:
+                continue
+            g, _ = guards_of(top, bb)
+            extra = [x for x, v in g if not x.startswith("try_close(") and x not in ("0", "1")]
+            verdict = [x for x, v in g if x.startswith("try_close(") and v != 0]
+            if extra or not verdict:
+                problems.append("on_close depends on %s besides the inner collector's verdict: a close the registry performs is not reported to the layer"
+                                % ([x[:50] for x in extra] or "nothing"))
     # any wrapper: a notification (a method returning `()`) may be withheld only for a reason found in the wrapper's own
     # state -- the Option is None, the Vec is exhausted, the filter said no, the lock is poisoned. A path that returns
     # without forwarding and without having looked at `self` at all drops the notification for an unrelated reason.
@@ -523,13 +536,13 @@ def check_dispatch_event(ck, F):
         ck.bad("C09.R4", "Dispatch::event", where(b.raw["sp"]), "event() is not exactly guarded by event_enabled()")
 
 
-def check_pick_interest(ck, F):
+def check_pick_interest(ck, F, rid="C09.R5"):
     """register_callsite is forwarded to the inner value through the `inner` closure handed to pick_interest:
     that closure must be called exactly once on every path, except where the outer layer answered `never`
     (the documented veto)."""
     from rulekit.sym import PathEval, show
     b = F.body("tracing_subscriber::subscribe::layered::Layered::<A, B, C>::pick_interest")
-    if not ck.anchor("C09.R5", "Layered::pick_interest", b):
+    if not ck.anchor(rid, "Layered::pick_interest", b):
         return
     problems = []
     n = 0
@@ -545,6 +558,6 @@ def check_pick_interest(ck, F):
             problems.append("a path returns %s without asking the inner value although the outer layer did not answer `never` (conditions: %s)"
                             % (show(p.ret), [(show(c[0]), c[1]) for c in p.conds if c[0][0] != "const"]))
     if problems or not n:
-        ck.bad("C09.R5", "pick_interest: inner asked exactly once unless outer is never", where(b.raw["sp"]), "; ".join(sorted(set(problems))) or "no paths", fn=b.path)
+        ck.bad(rid, "pick_interest: inner asked exactly once unless outer is never", where(b.raw["sp"]), "; ".join(sorted(set(problems))) or "no paths", fn=b.path)
     else:
-        ck.ok("C09.R5", "pick_interest: inner asked exactly once unless outer is never", fn=b.path, detail="%d return paths" % n)
+        ck.ok(rid, "pick_interest: inner asked exactly once unless outer is never", fn=b.path, detail="%d return paths" % n)
